@@ -654,9 +654,10 @@ def run_partial_listeners(ctx, rig, ref, config, cascade, expected_exc, listen, 
                               f"[flags, was_deleted, session, identity_map, in session]",
                               dict(where, obj=n, reference=a, observed=b))
                 break
-            # (order inside one flush follows set iteration and is not documented; instances the
-            # library built itself have no stable name)
-            norm = lambda evs: sorted((e, n.rstrip("*?")) for e, n in evs)
+            # (order inside one flush follows set iteration and is not documented; only the named
+            # objects are compared: whether an instance the library loaded itself is loaded
+            # again depends on garbage collection of the weakly referencing identity map)
+            norm = lambda evs: sorted((e, n) for e, n in evs if n in ("o1", "o2", "o3", "o4"))
             want = norm(e for e in events if e[0] in sub)
             if norm(got[5]) != want:
                 ctx.violation(f"{kind}:event-stream-differs-from-instrumented-run:{name}",
@@ -762,13 +763,13 @@ def run(ctx):
                         break
                     cname = "plain" if idx % 3 else "orphan"
                     w = run_case(ctx, rigs[cname], config, cname, seq, expected_exc,
-                                 listen=() if (idx // ctx.nshards) % 4 == 0 else None)
+                                 listen=() if (idx // ctx.nshards) % 6 == 0 else None)
                     ctx.count("exhaustive_sequences")
                     if sampled < 2 and w.tr.nevents >= 4:
                         ctx.sample({"config": config, "cascade": cname, "ops": [list(o) for o in seq]})
                         sampled += 1
         # ---- part B: random histories --------------------------------------------
-        nrand = ctx.pick({"quick": 150, "thorough": 6000})
+        nrand = ctx.pick({"quick": 120, "thorough": 2000})
         names = [n for n, _ in RANDOM_OPS]
         weights = [wt for _, wt in RANDOM_OPS]
         for k in range(nrand):
@@ -835,7 +836,7 @@ def run(ctx):
                             if not ctx.budget_ok():
                                 break
                             seq = [(n, None if n in NO_OBJ else "o1") for n in pre + lv + bk + fin]
-                            k3 = (idx // ctx.nshards) % 4
+                            k3 = (idx // ctx.nshards) % 6
                             run_case(ctx, rigs["plain"], config, "plain", seq, expected_exc,
                                      expire_on_commit=bool(idx // 16 % 2),
                                      listen=() if k3 == 0 else R.LIFECYCLE_EVENTS[k3::3] if k3 == 1 else None)
